@@ -12,641 +12,615 @@ Definition show_fres (r : fres) : string :=
   end.
 Definition check (rs : list rune) : string := digest (show_fres (format_res rs)).
 Definition full (rs : list rune) : string := show_fres (format_res rs).
-Eval vm_compute in ("<<<M1769>>>" ++ check (runes_of_ascii "options{  // c1a
-  // c1b
-  FixedStringPadFromLeft // c2a
-  // c2b
-	  = 	 // c3a
-	// c3b
-true 	 // c4a
-	// c4b
-
-  ;// c5
-FixedStringPadChar  
-      // c6
-    	=// c7a
-// c7b
-  '0' ;  
-      // c9
-}// c10a
-	// c10b
-    packet  // c11
-	  Leg  // c12a
-    // c12b
-    { InPrice0 	 // c14
-  	{ 	 // c15a
-  // c15b
-    repeat 
-	// c16
-  string  // c17
-      clOrdID	// c18a
-
-// c18b
-
-,  
-      // c19
-    	int16 // c20
-
-msgKind 	 // c21a
-  // c21b
-	  ,  // c22a
-// c22b
-  zchar[	// c23
-	5 
-
-    // c24
-]
-
-Px 
-	// c26
-    ,	// c27
-  	}  
-  // c28
-
+Eval vm_compute in ("<<<M320>>>" ++ check (runes_of_ascii "packet
+    /// triple
+    a1 { @rightPad ( ' ' ) @tag( 255
+)
+@lengthOf( zchar ) string MetaDataX	@calculatedFrom( ""CRC32"" ) // a // b
+`crlf
+line` ,u8 A @lengthOf( charz
+    ) ,
+    body ,@rightPad
+    ( '0'	)@lengthOf( charz ) match repeatCount as
+    Z9_ { 0123456789 : metadata // @lengthOf(
+,""" ++ [233]%N ++ runes_of_ascii "t" ++ [233]%N ++ runes_of_ascii """ : float  ,// packet A { u8 x, }
+""1"": Logon ,// " ++ [27880; 37322]%N ++ runes_of_ascii "
+},
+x_y_z`" ++ [233]%N ++ runes_of_ascii "`//x
+, @calculatedFrom(	""1"")match Header  as body
+    { 4294967296
+// @lengthOf(
+// @lengthOf(
+: MetaDataX
 ,
-    // c29
-i16  // c30
-    	f1 	 // c31
-	  , 
-  // c32
-  repeat // c33a
-	// c33b
-f64 	 // c34a
-  	// c34b
-	Side2
-    // c35
-  , string
-    // c37
-Acct 	 // c38
-, }
-        // c40
-packet Cancel	// c42
-
-	{
-zchar[// c44
-    	4] // c46a
-	  // c46b
-    	clOrdID// c47a
-
-// c47b
-	, // c48a
-	// c48b
-
-string 	 // c49
-	  seqNo // c50
-,  // c51a
-  // c51b
-
-Leg 	 // c52
-, 
-	    // c53
-  @leftPad// c54a
-
-  // c54b
-  	( '0' // c56
-	) 
-    // c57
-
-char[
-11
-	// c59
-  ]
-    // c60
-OrderId// c61
-    ,
-    // c62
-	  } 
-packet
-    // c64
-    Quote // c65a
-    // c65b
-  {
+""abc"" //x
+: packetx
+    }
+, x_y_z @calculatedFrom( ""\" ++ [233]%N ++ runes_of_ascii """ ),i64_  @calculatedFrom(""abc"")`
+`,
+@rightPad //	t
+(
+)
+    //	t
+    char
+    float
+@lengthOf(	trueish )
+, @tag(42 ) @leftPad ( '\x00' ) @calculatedFrom(	""\n"") repeat string
+tag, //x
+} packet
+tag { repeat T u `
+` , string u128 @calculatedFrom( // `tick` ""quote"" 'q'
+""packet"" )`u8 x,` ,
+// trailing space 
+//x
 repeat
+    f64
+stringy `" ++ [233]%N ++ runes_of_ascii "` , u32 leftPad  @lengthOf(float ) , uint32	i8i8
+@lengthOf( f32a
+) , int@calculatedFrom( """ ++ [233]%N ++ runes_of_ascii "t" ++ [233]%N ++ runes_of_ascii """ )
+    ,
+    // c
+    @calculatedFrom( ""\n""
+) @leftPad
+    ( '\x00') @rightPad
+    ()
+    repeat
+pack  `// not a comment` , @calculatedFrom( ""1""	)
+    char[]  string_
+,f64 calculatedFrom
+    @lengthOf(	pack)  `tab	here`,@tag(00 ) int8 tag
+    ,
+} options { f32a
+= ""a	b"" _x = false ; _x = '0' o= false /// triple
+} packet falsey
+    /// triple
+    { @tag(
+    // trailing space 
+    007 ) string falsey,
+i64_
+@lengthOf(crc),repeat // c
+u128 body// packet A { u8 x, }
+, char[ 00]roots,/// triple
+metadata @lengthOf(packetx // `tick` ""quote"" 'q'
+)
+    `
+`	,// trailing space 
+string_
+BodyLength, @calculatedFrom(
+""it's"" ) repeat matchKey ,
+metadata
+    @calculatedFrom( ""abc""
+)// @lengthOf(
+,
+@tag( 255 )repeat
+Pad
+    {
+char[] packetx ,repeat o { int16 charz
+    // packet A { u8 x, }
+    ,packetx {
+i8
+//
+// packet A { u8 x, }
+zchar ,} ,char[10 //x
+]x
+, repeat zchar[ 0123456789 ]
+pack , // c
+} ,	int ,
+i8 asx ,
+}
+,}
+packet leftPad
+    { @tag(255
+    /// triple
+    )repeat uint16 msg_type  ,
+    // c
+    f32  trueish @calculatedFrom("""" )	`two words` // `tick` ""quote"" 'q'
+, @leftPad( '\x00' ) @lengthOf( leftPad
+) // a // b
+@lengthOf( asx // a // b
+)
+    //	t
+    zchar[ 1] roots @calculatedFrom(
+""abc""
+) ,pack @lengthOf(
+Z9_ ), @tag(
+65535) @lengthOf(Header
+    ) // c
+f64 tag , @tag( 1
+)repeat
+    u8x, match stringy// c
+as x { ""it's"" // " ++ [27880; 37322]%N ++ runes_of_ascii "
+: Z9_ ,7 : u128 ,
+""// no comment"" :trueish, 00
+:
+    //	t
+    f32a ,
+    [3,  1, 00]:	pack,""" ++ [28040; 24687]%N ++ runes_of_ascii """
+    // trailing space 
+    : options1	,
+// `tick` ""quote"" 'q'
+//x
+} ,
+repeat // `tick` ""quote"" 'q'
+u128 { repeat
+crc
+{ int16	int ,  }
+// c
+// @lengthOf(
+, }
+    // @lengthOf(
+    , @leftPad ( ' '  ) // trailing space 
+repeat
+zchar[ 255 ]
+// " ++ [128512]%N ++ runes_of_ascii " emoji
+// `tick` ""quote"" 'q'
+int `crlf
+line` ,@tag( 1 ) Logon roots
+    `// not a comment` , }
+")).
+Eval vm_compute in ("<<<M1840>>>" ++ check (runes_of_ascii "options {StringPrefixLenType
+	= u16
+    ; ArrayPrefixLenType=
+u16 ;} packet SampleBinary{ 
+uint16 
+MsgType
+    `" ++ [28040; 24687; 31867; 22411]%N ++ runes_of_ascii "`	, 
+u16 BodyLenght @lengthOf( Body
+    ) 
+`" ++ [28040; 24687; 20307; 38271; 24230]%N ++ runes_of_ascii "` 
+,
+	match MsgType
 
-// c67
-    char[4  // c69
-  ]
-sym  // c71
-      , 	 // c72
-	f64 OrderId,  
-      // c75
-    repeat 
-        // c76
-Leg
-	,// c78a
-	// c78b
-    repeat  i64  // c80
-	f1  // c81a
-// c81b
-,// c82
-	int16 
-      // c83
-    Note 
-	// c84
-    , 
-zchar[ 3 	 // c87a
-// c87b
-	] count
-    // c89
-  	, } 	 // c91
-    	root
-// c92
+as Body 
+{ 
+1:
+Logon  , 
+2 : 
+Logout,
 
-packet 
-Ack{// c95a
-    // c95b
-    @leftPad
-// c96
-  ( 
+3 : Heartbeat
+    ,4
+:
+    RiskControlRequest  ,
+5
 
-// c97
-' '	// c98a
-  // c98b
-  ) char[  
-      // c100
-      10
-// c101
-  	] 	 // c102a
-  // c102b
-sym 	 // c103a
-    // c103b
-		,  // c104
-    InPx60 // c105
+    : RiskControlResponse
 
-{ Cancel	// c107a
-	// c107b
-    , 	 // c108
+    ,
+}  ,
+	@calculatedFrom( ""CRC32"" )u32
+Ckecksum`" ++ [26657; 39564; 21644]%N ++ runes_of_ascii "` ,}packet
 
-  repeat
+Logon
+
+{ @leftPad 
+('0' )
 
     char[
-	1// c111
-  	] f1  // c113
-	  , 	 // c114a
-	// c114b
-    string // c115
-Tail , 
-// c117
-  repeat// c118a
-	// c118b
-    	InNote55
-    // c119
-	  {	// c120
-int8
+    10
 
-    count 
-    // c122
-    , 
+    ]
+    UserName
 
-    // c123
+    `" ++ [29992; 25143; 21517]%N ++ runes_of_ascii "` ,
 
-  f64  // c124a
-      // c124b
-	f1	// c125a
-    // c125b
-	, repeat
-    Cancel 
-      // c128
+    string	Password
 
-	, 	 // c129a
-    	// c129b
-  }
-// c130
+    `" ++ [23494; 30721]%N ++ runes_of_ascii "`
 
-, 
-    // c131
-
-char[]
-    // c132
-	tag7
-// c133
-  	,repeat 	 // c135a
-	  // c135b
-	string
-	// c136
-	msgKind 
-    // c137
-  , }	, 	 // c140
-  	u8
-    // c141
-  	lastPx  ,
-
-// c143
-	match// c144
-
-lastPx
-	    // c145
-	as// c146a
-		// c146b
-	Body	// c147
-    {
-// c148
-    152
-:
-
-Quote
-
-    , 	 // c152a
-		// c152b
-    173 // c153
-    : 	 // c154a
-  	// c154b
-  Cancel
-
-    // c155
-
-	,// c156a
-	// c156b
-	4 
-:  // c158a
-// c158b
-    Leg// c159a
-	  // c159b
-	,}	// c161
-	, u16
-        // c163
-
-	Ref 	 // c164
-  @calculatedFrom(  
-  // c165
-  ""CRC32""
-
-// c166
-  )  // c167a
-  // c167b
-,	// c168a
-	// c168b
-	}  
-  // c169
-")).
-Eval vm_compute in ("<<<M1618>>>" ++ check (runes_of_ascii "
-
-  packet
-
-    _x
-
-{
-leftPad
-	`it's`	,
-
-    match
-Logon
-
-as
-    matchKey
-	{
-	""packet""
-    :  stringy ,
-
-    3
-
-    :
-u,//
-  ""1"" :
-Pad
-	}	,
-
-    float32 Z9_	@lengthOf( i8i8
-
-    ) `" ++ [233]%N ++ runes_of_ascii "`
-
-// " ++ [27880; 37322]%N ++ runes_of_ascii "
-  ,@tag( 3  )
-	match 
-  //	t
-    As as Pad 
-{""""
-:chars,""x y""	//
-    :	i64_ ,
-	}
-    , @calculatedFrom(  ""it's""  // c
-	)
-	@leftPad
-(
-    ' ')
-
-zchar[ 
-0123456789
-
-]falsey
-    , match 
-A as	packetx
-    { [  42 ]
-:
-
-matchKey 	 // c
-  , }  // `tick` ""quote"" 'q'
-
-	,
-@leftPad (
-
-    ' ') match
-x
-    // c
-	as a1
-
-    {
-
-""packet"" 	 //x
-    :  a1
-    ,	10 :
-pack  ""{,}""
-    :
-	u8x  // a // b
-	,
-[ 007 , 
-00 // trailing space 
-]
-
-    : trueish, 
-""x y"":	pack 	 //	t
-  ,
-
-    """ ++ [233]%N ++ runes_of_ascii "t" ++ [233]%N ++ runes_of_ascii """ :matchKey ,
-}
 ,
-@leftPad 
-(
-	'0' ) uint8x
+	uint64
+    ClientId
 
-u
-,
-zchar[
-	3 // a // b
-	] 
-//	t
-  	u `` ,
+`" ++ [23458; 25143; 31471]%N ++ runes_of_ascii "ID`,  u16
+    HeartbeatInterval
+	`" ++ [24515; 36339; 38388; 38548]%N ++ runes_of_ascii "` ,}	packet Logout  { @rightPad
+    (
+    '0'
 
-@rightPad
-	( 
-' '
-	) repeat	_x
-	``  ,  }MetaData
-
-Foo{ a1 Z9_
-,
-
-options1  T,
-
-u32
-    u8x	`crlf
-line`
-,  metadata
-falsey
-	, lengthOf
-x_y_z , }
-
-packet
-calculatedFrom
-{
-@tag(
-3 )string
-
-    A
-
-, match leftPad as
-	a1 
-{	//	t
-0123456789  :
-	calculatedFrom	,	}
-,
-match
-crc //
-
-as
-	body {00: _x ,	}
-,
-
-o@calculatedFrom(""x y"") 
-  //
-    // " ++ [128512]%N ++ runes_of_ascii " emoji
-	,
-
-    }  packet
-
-    T
-
-    { } packet 
-Logon
-    { @leftPad
-( 	 // @lengthOf(
-    '\x00') As	@calculatedFrom(
-
-""a	b""
     )
-    `line1
-line2`
+
+    char[ 10 ]
+	UserName
+    `" ++ [29992; 25143; 21517]%N ++ runes_of_ascii "`  ,
+	uint64
+    ClientId
+`" ++ [23458; 25143; 31471]%N ++ runes_of_ascii "ID`  , } 
+packet
+
+    Heartbeat
+{ }
+	packet RiskControlRequest
+
+    {string UniqueOrderId
+	`" ++ [21807; 19968; 35746; 21333; 21495]%N ++ runes_of_ascii "`
+	, 
+char[
+
+16
+]
+ClOrdID
+`" ++ [23458; 25143; 35746; 21333; 21495]%N ++ runes_of_ascii "`,char[
+
+3
+
+]
+	MarketID`" ++ [24066; 22330]%N ++ runes_of_ascii "id` ,
+
+char[
+	12
+
+    ]  SecurityID
+	`" ++ [35777; 21048; 20195; 30721]%N ++ runes_of_ascii "` 
+,
+
+char Side
+
+`" ++ [20080; 21334; 26041; 21521]%N ++ runes_of_ascii "`
+    ,
+    char
+    OrderType
+
+    `" ++ [35746; 21333; 31867; 22411]%N ++ runes_of_ascii "`  ,	u64 Price
+
+    `" ++ [20215; 26684]%N ++ runes_of_ascii "`  , 
+u32
+
+Qty  `" ++ [25968; 37327]%N ++ runes_of_ascii "`  , 
+repeat string
+    ExtraInfo
+	`" ++ [38468; 21152; 20449; 24687]%N ++ runes_of_ascii "` ,
+repeat
+
+    SubOrder
+{ char[
+16 ]
+
+ClOrdID`" ++ [23376; 35746; 21333; 21495]%N ++ runes_of_ascii "`
 
     ,
+u64
+Price  `" ++ [23376; 35746; 21333; 20215; 26684]%N ++ runes_of_ascii "`
+, u32	Qty
+`" ++ [23376; 35746; 21333; 25968; 37327]%N ++ runes_of_ascii "`
+, },
+    }
+packet RiskControlResponse	{
 
-pack lengthOf	// `tick` ""quote"" 'q'
-    	, }	// `tick` ""quote"" 'q'")).
-Eval vm_compute in ("<<<M282>>>" ++ check (runes_of_ascii "// a // b
-packet stringy	{
-string zchar ,
-    repeat T
-, match
-u
-as  charz {
-007
-    //x
-    :
-//	t
-// @lengthOf(
-float// trailing space 
-,""\" ++ [233]%N ++ runes_of_ascii """ : Logon ""a	b"":
-//	t
-//	t
-pack, } , match uint8x as
-    // " ++ [27880; 37322]%N ++ runes_of_ascii "
-    roots
-{
-1
-    // `tick` ""quote"" 'q'
-    : len
-,	}
-//x
-// " ++ [27880; 37322]%N ++ runes_of_ascii "
-, }packet zchar {	roots options1
-    //x
-    `// not a comment` , int64 As
-,
-    i16 float
-    @lengthOf( falsey
-    // " ++ [27880; 37322]%N ++ runes_of_ascii "
-    ) `a\`
-    , int64 msg_type `tab	here`
-, @tag(0
-    // `tick` ""quote"" 'q'
-    ) repeat uint8x ,
-    @lengthOf(x
-    ) repeat metadata
-    , zchar[ 0 ]	int , uint64
-    zchar ,zchar[7 // " ++ [27880; 37322]%N ++ runes_of_ascii "
-]
-msg_type
-,
-@calculatedFrom(
-/// triple
-// " ++ [27880; 37322]%N ++ runes_of_ascii "
-""" ++ [28040; 24687]%N ++ runes_of_ascii """ ) crc
-, }
-root packet zchar { repeat
-leftPad,
-} packet
-A{
-@lengthOf(
-    string_ )	x@lengthOf( options1) `two words`,  string
-len ,	}packet	falsey{ i64_ @calculatedFrom(	""{,}"" ) , repeat
-string chars
-, zchar[ 7]calculatedFrom
-, Header
-    { char u`two words`, repeat char[] // c
-tag
-    `say ""hi""`	, Z9_
-    @lengthOf(
-T ) `line1
-line2` , } , msg_type @calculatedFrom( ""// no comment""
-    ) , @rightPad (// packet A { u8 x, }
-'\x00' )
-@lengthOf( asx )
-falsey
-,
-    } // packet A { u8 x, }")).
-Eval vm_compute in ("<<<M1536>>>" ++ check (runes_of_ascii "
-options
-	//x
-  	// @lengthOf(
-	  {Foo
-= ""// no comment""
-	    /// triple
-	//	t
-  	;} packet 
-float
+    string UniqueOrderId
+    `" ++ [21807; 19968; 35746; 21333; 21495]%N ++ runes_of_ascii "`  ,
+i32
+    Status`" ++ [29366; 24577]%N ++ runes_of_ascii "`
 
-    {
-
+,
+string
+Msg`" ++ [32467; 26524; 20449; 24687]%N ++ runes_of_ascii "`,  repeat 
+Detail
+,
 }
-packet
-	len 
-{ @lengthOf(
-    _x  )stringy {
-	metadata
+packet Detail 
+{ string RuleName  `" ++ [35268; 21017; 21517; 31216]%N ++ runes_of_ascii "`,
 
-    @calculatedFrom(
+    u16 Code
 
-""a\\""
+`" ++ [21407; 22240; 20195; 30721]%N ++ runes_of_ascii "`	,  }
+")).
+Eval vm_compute in ("<<<M1581>>>" ++ check (runes_of_ascii "  // `tick` ""quote"" 'q'
+packet	crc
 
-    ) 
+    {  @tag( 0  ) 	 //x
+
+chars,
+    i8i8 @lengthOf(
+
+    packetx
+	) ,repeat 
+f32a{match
+
+packetx
+as 
+a1
+
+{""x y""  :  
+  //
+	// `tick` ""quote"" 'q'
+  Packet,
+} 
+,
+
+},  @leftPad
+
+    ( 
+'\x00')
+    uint8  int  ,
+	match 
+float as
+
+a1
+{ 
+    // `tick` ""quote"" 'q'
+	[ 
+4294967296 ]	:// " ++ [27880; 37322]%N ++ runes_of_ascii "
+    Packet ,
+	} 	 //
+	,
+repeat  zchar[007  ] zchar
+`tab	here`,
+	repeat 
+
+    // " ++ [27880; 37322]%N ++ runes_of_ascii "
+  	// a // b
+	x
 ,
 	}
-,
-//x
-	  //
-	}  packet
+    packet
 
-asx { @tag( 0
-    )  repeat
-    float64
-	A  `say ""hi""` , 
-  //
-// trailing space 
-  i16  int`say ""hi""`,@calculatedFrom(
+    string_ 
+// c
+  { char[
+    0123456789
+    ] a1
+    ,
+	@calculatedFrom(
 
-    """ ++ [128512]%N ++ runes_of_ascii """
-) lengthOf Header `two words`  , f32a zchar , @rightPad
-	(
-    '0' ) repeat	string_ 
-// packet A { u8 x, }
-	chars
-
-``
-    , @tag(
-4294967296	)
-@calculatedFrom(
-
-""a	b"" )
-    repeat
-
-msg_type
-, @leftPad
-( 
+    ""a\\""
+    ) 
+@tag( 42
+	)@leftPad(
+	'\x00'
+    ) options1
+@calculatedFrom(""" ++ [28040; 24687]%N ++ runes_of_ascii """
 )
-
-    repeat f64
-_x
+`it's`
 ,
-repeat As{  Logon @lengthOf(	calculatedFrom)
-`two words`  ,
-    repeat
-u64 o
 
-    `u8 x,` ,}
-	, @calculatedFrom(""packet"" )
-repeat// @lengthOf(
-    uint8
-    u	,}
-packet
+    repeat  rootA// packet A { u8 x, }
+{ 
 
-    uint8x 
-{@leftPad	('0' ) 
+//
+    match
+Logon as
+	Packet
 
-    //	t
-//x
-  zchar[ 
-    // packet A { u8 x, }
-    // " ++ [27880; 37322]%N ++ runes_of_ascii "
+{[10 
+, 255 
+,
 
-255]	metadata
+0
+,	007 
+, 
+""CRC32""
+	,	""abc""
 
-    `a\`
-	,	//
+    ]
 
-	} // `tick` ""quote"" 'q'
- 
+: len
+	,""" ++ [28040; 24687]%N ++ runes_of_ascii """ : 
+a1 , }	, match
+    leftPad
+
+    as
+	Header {
+
+    007  :
+As
+,255
+:
+repeatCount
+
+    ,	/// triple
+""""// packet A { u8 x, }
+  : 
+matchKey 	 //
+    	,  [ 255 , 
+3 
+,
+
+    ""abc""
+
+,
+""""	,
+
+""\n"" ,
+    1  ,"""" // " ++ [27880; 37322]%N ++ runes_of_ascii "
+	,
+42 //x
+
+	] :pack, } ,} 
+	// @lengthOf(
+  	// `tick` ""quote"" 'q'
+,
+    int 
+{
+
+    int64
+
+chars,
+}// @lengthOf(
+	, } ")).
+Eval vm_compute in ("<<<M1600>>>" ++ check (runes_of_ascii "
+// top
+    options // c0
+  {LittleEndian 
+
+    // c2
+=
+	true
+// c4
+	; StringPrefixLenType
+
+    =  // c7a
+  	// c7b
+  	u16	// c8
+;// c9a
+  // c9b
+
+	FixedStringPadChar =// c11a
+  // c11b
+
+' '  // c12
+	;	// c13
+	}
+packet  // c15
+      Logon
+
+    {// c17
+@leftPad  // c18a
+	// c18b
+  ('0' 
+        // c20
+	  )
+char[ // c22
+	10 ] 
+    // c24
+
+  tag7	// c25a
+	// c25b
+,
+    }
+// c27
+
+root  // c28a
+// c28b
+	packet	Ack
+    // c30
+	{ // c31
+int32 Px // c33
+    	,	// c34a
+// c34b
+		uint16  // c35
+  	count  // c36a
+  	// c36b
+  ,	// c37
+	string // c38
+
+Qty  // c39
+  , string
+        // c41
+    	OrderId 
+// c42
+  ,
+    string 
+Flags// c45a
+
+// c45b
+  ,  u8
+	x// c48a
+
+// c48b
+	,	// c49a
+    	// c49b
+  match  // c50
+	x// c51
+    	as
+Body 
+        // c53
+	{  // c54
+	[
+
+// c55
+  58	// c56
+
+  , // c57a
+// c57b
+	169
+
+    ]	// c59
+:  // c60a
+	  // c60b
+Logon 
+    // c61
+	,
+}	// c63
+		,  }  // c65a
+	// c65b
 ")).
-Eval vm_compute in ("<<<M1575>>>" ++ check (runes_of_ascii "root packet asx {
-    leftPad {
-        u128 @calculatedFrom(""1""),//x
-    },
-    lengthOf @calculatedFrom(""" ++ [128512]%N ++ runes_of_ascii """) `a\`,
-    i64 Packet @lengthOf(calculatedFrom),
-    @calculatedFrom(""" ++ [233]%N ++ runes_of_ascii "t" ++ [233]%N ++ runes_of_ascii """)
-    stringy a1 `doc`,
-    @rightPad()
-    // c
-    a1 `a\`,
-    char Header @lengthOf(x) `say ""hi""`,
-    uint8x Z9_ `tab	here`,
+Eval vm_compute in ("<<<M1386>>>" ++ check (runes_of_ascii "// top
+options
+    // c0
+{
+    // c1
+LittleEndian // c2a
+  // c2b
+=
+    // c3
+true // c4a
+  // c4b
+; } // c6a
+  // c6b
+packet // c7a
+  // c7b
+Logon // c8a
+  // c8b
+{ u8
+    // c10
+x // c11a
+  // c11b
+,
+    // c12
 }
-
-options {
-    calculatedFrom = 0
-}
-
-packet metadata {
-    @leftPad('\x00')
-    f32 pack,
-    @tag(65535)
-    u32 uint8x @lengthOf(repeatCount) ``,
-    MetaDataX {
-        repeat options1,
-        match matchKey as len {
-            """ ++ [128512]%N ++ runes_of_ascii """ : u8x,
-            1 : zchar,
-            /// triple
-            [""a\\"", ""x y""] : charz,
-            0 : x_y_z,
-            [4294967296] : asx,
-            [""a\""b"", ""\n"", ""\" ++ [233]%N ++ runes_of_ascii """, 10] : _x,
-        },
-        uint8 metadata @lengthOf(float),
-        zchar[255] i8i8,
-    },
-}
-
-root packet f32a {
-}")).
+    // c13
+packet
+    // c14
+Logout
+    // c15
+{ // c16
+u16 reason // c18a
+  // c18b
+, } // c20
+root // c21
+packet Frame // c23
+{ // c24a
+  // c24b
+u64
+    // c25
+Kind , // c27
+u64 Kind2 // c29
+, match Kind // c32
+as // c33
+Body
+    // c34
+{
+    // c35
+1 : // c37a
+  // c37b
+Logon ,
+    // c39
+[ // c40a
+  // c40b
+2 , // c42a
+  // c42b
+3 // c43a
+  // c43b
+, // c44
+4 // c45a
+  // c45b
+] // c46a
+  // c46b
+:
+    // c47
+Logout
+    // c48
+, // c49
+100 : // c51
+Logon
+    // c52
+, // c53
+} // c54
+, match // c56a
+  // c56b
+Kind2 // c57
+as // c58
+Trailer
+    // c59
+{ // c60a
+  // c60b
+0 : // c62
+Logout
+    // c63
+, // c64
+} // c65
+, } ")).
 Eval vm_compute in ("<<<M1884>>>" ++ check (runes_of_ascii "
 packet pack 
   // c
@@ -723,426 +697,451 @@ Z9_ , // " ++ [27880; 37322]%N ++ runes_of_ascii "
     }
 
 ")).
-Eval vm_compute in ("<<<M1659>>>" ++ check (runes_of_ascii "packet tag {
-    @calculatedFrom(""x y"")
-    lengthOf {
-        options1 `
-        `,
-    },
-    @tag(7)
-    int {
-        //x
-        // " ++ [27880; 37322]%N ++ runes_of_ascii "
-        char[007] calculatedFrom @lengthOf(metadata),
-        tag @lengthOf(falsey),
-        f32 calculatedFrom `{ , }`,
-        i8i8 {
-            string i64_ @lengthOf(asx) `it's`,
-            u @calculatedFrom(""\n""),
-        },
-    },
-    @calculatedFrom(""abc"")
-    @leftPad(' ')
-    uint64 calculatedFrom,// " ++ [27880; 37322]%N ++ runes_of_ascii "
+Eval vm_compute in ("<<<M1360>>>" ++ check (runes_of_ascii "options {
+    StringPrefixLenType = u8;
+    ArrayPrefixLenType = u32;
+    FixedStringPadFromLeft = true;
+    FixedStringPadChar = ' ';
 }
-
-packet o {
-    Header,
-    @lengthOf(i8i8)
-    float32 Pad,
-    char[42] leftPad @calculatedFrom(""""),
+packet Leg {
+}
+packet Heartbeat {
+    zchar[6] msgKind,
+    @rightPad('0') char[3] Qty,
+    zchar[9] Side2,
+    i8 Acct,
+}
+packet Logout {
+    int8 x,
+}
+packet Order {
+    char[] Acct,
+    zchar[8] count,
+    u32 OrderId,
+    uint8 lastPx,
+    u16 clOrdID,
+    zchar[7] Note,
+}
+root packet Reject {
+    @leftPad(' ') char[8] Side2,
+    i8 clOrdID,
+    repeat f32 x,
+    u32 lastPx,
+    match lastPx as Body {
+        [30, 147] : Heartbeat,
+        134 : Leg,
+        183 : Logout,
+        40 : Order,
+    },
+    u16 Ref @calculatedFrom(""CRC32""),
+}
+")).
+Eval vm_compute in ("<<<M1646>>>" ++ check (runes_of_ascii "root packet falsey {
     @tag(255)
-    body u,
+    len @calculatedFrom(""`tick`""),
+    match MetaDataX as crc {
+        [7] : roots,
+    },
+    @tag(10)
+    @tag(10)
+    @tag(255)
+    repeat uint64 rootA,
+    tag `" ++ [28040; 24687; 31867; 22411]%N ++ runes_of_ascii "`,
+    float32 i64_,
+    int64 _x `doc`,
+    @leftPad(' ')
+    match i8i8 as pack {
+        // `tick` ""quote"" 'q'
+        7 : Logon,
+        ""x y"" : lengthOf,
+    },// trailing space 
+    match x_y_z as u {
+        // `tick` ""quote"" 'q'
+        // " ++ [27880; 37322]%N ++ runes_of_ascii "
+        [0123456789] : packetx,
+        007 : x_y_z,
+        10 : rootA,
+        7 : u,
+        0123456789 : falsey,
+    },// packet A { u8 x, }
+}")).
+Eval vm_compute in ("<<<M1785>>>" ++ check (runes_of_ascii "packet rootA {
+    options1 _x,
+    u64 Header,
 }
 
 packet lengthOf {
-    // packet A { u8 x, }
-    // c
-    @tag(255)
-    char[0123456789] o `
-    `,
-}")).
-Eval vm_compute in ("<<<M1662>>>" ++ check (runes_of_ascii "root packet asx {
     @rightPad(' ')
-    @lengthOf(int)
-    @tag(0)
-    u64 uint8x @calculatedFrom(""packet""),
-    uint32 i64_,
-    // c
-    repeat options1 o,
-    match f32a as falsey {
-        42 : stringy,
-        10 : As,
-        """" : Packet,
+    @lengthOf(u128)
+    @calculatedFrom(""a\""b"")
+    A {
+        string i64_ `it's`,
+        //	t
+        // trailing space 
+        uint8 body,
+        match pack as u {
+            // @lengthOf(
+            // trailing space 
+            00 : charz,
+            00 : int,
+            3 : falsey,
+            255 : body,
+            [0123456789] : x_y_z,
+            // a // b
+            //
+        },
     },
-    @calculatedFrom(""it's"")
-    // " ++ [128512]%N ++ runes_of_ascii " emoji
-    f64 a1,
-    @lengthOf(tag)
-    match roots as MetaDataX {
-        """ ++ [128512]%N ++ runes_of_ascii """ : f32a,
-        ""\n"" : As,
-        [255] : A,
-    },
-    a1 @calculatedFrom(""abc"") ``,
-    @rightPad()
-    @rightPad('\x00')
-    @calculatedFrom(""CRC32"")
-    body As,
 }
 
-root packet packetx {
-    //x
-    //
-    repeat lengthOf Logon `" ++ [28040; 24687; 31867; 22411]%N ++ runes_of_ascii "`,//	t
+MetaData chars {
+    u128 zchar,
+    char[42] metadata,
 }")).
-Eval vm_compute in ("<<<M1342>>>" ++ check (runes_of_ascii "options {
-    LittleEndian = false;
-    ArrayPrefixLenType = u8;
-    FixedStringPadFromLeft = true;
-    FixedStringPadChar = '0';
-}
-packet Heartbeat {
-    string lastPx,
-    uint8 Qty,
-    i64 Acct,
-    char[4] Ref,
-}
-packet Fill {
-    uint8 Ref,
-    Heartbeat,
-    f32 OrderId,
-    repeat f32 x,
-}
-root packet Order {
-    zchar[2] OrderId,
-    zchar[2] Acct,
-    zchar[1] Note,
-    zchar[9] Qty,
-    string price,
-    string tag7,
-    u32 x,
-    match x as Body {
-        123 : Fill,
-        112 : Heartbeat,
-    },
-    u32 seqNo @calculatedFrom(""CRC32""),
-}
-")).
-Eval vm_compute in ("<<<M1433>>>" ++ check (runes_of_ascii "options {
-    ArrayPrefixLenType = u64;
-    FixedStringPadFromLeft = true;
-    FixedStringPadChar = '0';
-}
+Eval vm_compute in ("<<<M1860>>>" ++ check (runes_of_ascii "packet  /// triple
+  matchKey {
+	float32  float
 
-packet Quote {
-}
+    ,
+@calculatedFrom(
 
-packet Ack {
-    repeat InNote66 {
-        u8 pad0,
-    },
-}
+""a\\""  // " ++ [27880; 37322]%N ++ runes_of_ascii "
+    )
+@rightPad
 
-packet Reject {
-}
-
-root packet Order {
-    Quote,
-    repeat Reject,
-    string venue,
-    string seqNo,
-    uint32 Ref,
-    u16 lastPx,
-    u32 clOrdID @lengthOf(Body),
-    match lastPx as Body {
-        190 : Reject,
-        186 : Quote,
-        22 : Ack,
-    },
-    u16 Flags @calculatedFrom(""CRC32""),
-}")).
-Eval vm_compute in ("<<<M1592>>>" ++ check (runes_of_ascii "
-
-  MetaData  T { a1
-
-Packet,	// " ++ [128512]%N ++ runes_of_ascii " emoji
-uint8x
-
-    // @lengthOf(
-    	//x
-
-Pad`" ++ [233]%N ++ runes_of_ascii "`,
-
-a1 
-    // " ++ [27880; 37322]%N ++ runes_of_ascii "
-  	MetaDataX  ,
-zchar[
-    00	]
-
-    metadata
-    `u8 x,` 
-,
-	Pad// trailing space 
-  x
-
-`
-`  ,i8 
-u8x
-,
-}  options	{  As 
-=
-
-    false  ; }	root
-
-packet options1
-    {
-	@calculatedFrom(""// no comment"" )
-@lengthOf( _x
+(	'\x00'
 	)
-    @tag(
-	007
-)repeat
-// trailing space 
 
-// @lengthOf(
-  f32
-i8i8`" ++ [233]%N ++ runes_of_ascii "` , @rightPad  ( ' ' // " ++ [27880; 37322]%N ++ runes_of_ascii "
+    i16 
+tag
+    @calculatedFrom(""abc"" )
+, repeat zchar[  255
+]
+    pack
+	,
 
-)  repeat Pad
+    @lengthOf(
+	Z9_)
+	tag
+    ,
+
+    }// trailing space 
+root
+
+    packet
+
+    rootA
+{ repeat
+
+    metadata 
+{
+	Logon
+
+    , }	,
+@tag(10
+
+)  @lengthOf( A	)
+	@tag(  007)	u32 options1,  match float
+as
+u
+
+{	0123456789
+:u8x
+	, 
+}
+
+    , } 	 // " ++ [27880; 37322]%N ++ runes_of_ascii "
+    root  packet
+lengthOf{ 
+}
+
+")).
+Eval vm_compute in ("<<<M1297>>>" ++ check (runes_of_ascii "packet A { // c2a
+  // c2b
+u8
+    // c3
+a ,
+    // c5
+} // c6a
+  // c6b
+packet B // c8
+{ // c9
+u16
+    // c10
+b // c11
+, // c12
+} // c13a
+  // c13b
+root // c14a
+  // c14b
+packet // c15a
+  // c15b
+P
+    // c16
+{ u8 // c18a
+  // c18b
+K // c19
+, match // c21
+K // c22a
+  // c22b
+as // c23
+M // c24
+{ // c25a
+  // c25b
+1 : // c27a
+  // c27b
+A // c28a
+  // c28b
 ,
+    // c29
+1
+    // c30
+: B
+    // c32
+,
+    // c33
+} // c34a
+  // c34b
+,
+    // c35
+} ")).
+Eval vm_compute in ("<<<M1948>>>" ++ check (runes_of_ascii "
+options
 
-    }")).
-Eval vm_compute in ("<<<M1334>>>" ++ check (runes_of_ascii "options
-{ 
-LittleEndian
-=  false ;
-StringPrefixLenType 
-= u8
+    {falsey=
+	int64
 
-    ; ArrayPrefixLenType=	u64
-; 
-FixedStringPadFromLeft = false ; FixedStringPadChar
+    ;u8x =
+uint32
+    uint8x
+	=  // " ++ [128512]%N ++ runes_of_ascii " emoji
+zchar[
 
-    =' ' ;	}
-	packet  Reject
+    1]  
+      // @lengthOf(
 
-    {repeat	char[
-    4] seqNo , string  Px , 
-}	root
-    packet Trade  {
-    @rightPad
-	(
-
-'0')
-	char[ 
-2
+	/// triple
+      ; leftPad
+=  ""a	b"" ;calculatedFrom
+    =
+	false
+;
+}	MetaData
+	Packet{ 
+zchar[
+	7
 
     ]
-	msgKind  ,
-    repeat
-f64 price,InAcct79 { repeat Reject , zchar[  7]
-	OrderId
-	, }
-	,Reject	,}
-")).
-Eval vm_compute in ("<<<M1623>>>" ++ check (runes_of_ascii "// top
-options {
-    // c1a
-    // c1b
-    zchar = true;
-    Pad = char[00]
-    // c10
-    a1 = uint32// c13a
-    // c13b
-    BodyLength = true;
-    // c17
-}
+As ,
+    } 
+root packet pack	{
 
-root packet T {
-    // c22
-    @lengthOf(repeatCount)
-    @tag(1)
-    // c28a
-    // c28b
-    @calculatedFrom(""a	b"")
-    // c31a
-    // c31b
-    string stringy @calculatedFrom(""\n"") `u8 x,`,// c38
-}// c39")).
-Eval vm_compute in ("<<<M1335>>>" ++ check (runes_of_ascii "options {
-    LittleEndian = true;
-    StringPrefixLenType = u16;
-    FixedStringPadChar = ' ';
-}
-packet Logon {
-    @leftPad('0') char[10] tag7,
-}
-root packet Ack {
-    int32 Px,
-    uint16 count,
-    string Qty,
-    string OrderId,
-    string Flags,
-    u8 x,
-    match x as Body {
-        [58, 169] : Logon,
-    },
-}
-")).
-Eval vm_compute in ("<<<M1308>>>" ++ check (runes_of_ascii "packet A {
-    u8 a,
-}
-packet B {
-    u16 b,
-}
-packet C {
-    u32 c,
-}
-root packet M {
-    u16 Kc, u16 Kb, u16 Ka,
-    match Kc as X {
-        9 : A,
-        10 : B,
-    },
-    match Kb as Y {
-        2 : C,
-        1 : A,
-    },
-    match Ka as Z {
-        1 : B,
-    },
-    A, B, C,
-}
-")).
-Eval vm_compute in ("<<<M1379>>>" ++ check (runes_of_ascii "options {
-    LittleEndian = true;
-}
-packet Logon {
-    u8 x,
-    string user,
-}
-packet Logout {
-    u16 reason,
-}
-packet Empty {
-}
-root packet Frame {
-    u16 MsgType,
-    u8 BodyLen @lengthOf(Body),
-    u8 flags,
-    Logon Body,
-    u32 trailer,
-}
-")).
-Eval vm_compute in ("<<<M1544>>>" ++ check (runes_of_ascii "packet
-rootA
-    { } 	 // trailing space 
-	  packet
-f32a//	t
-		{ match zchar
-    as
+@leftPad() @tag(// trailing space 
+  	7 )
 
-    zchar { 65535:
+    zchar[
 
-f32a,	7 :
-charz  // trailing space 
+3	]
 
-,  ""{,}"" 
-  //	t
-	//x
-  :  Header,42:
+    u@lengthOf( 
+    // @lengthOf(
+	  // trailing space 
+  x
 
-a1 // packet A { u8 x, }
-
-,
-    } ,} ")).
-Eval vm_compute in ("<<<M1920>>>" ++ check (runes_of_ascii "
-options{
-falsey 
-    /// triple
-    =  false
-	;falsey
-
-    = 
-//
-  int16	// `tick` ""quote"" 'q'
-  ; 
-	// `tick` ""quote"" 'q'
-  A
-    = 
-	// trailing space 
-u32
-    ; trueish = 1  ;  }")).
-Eval vm_compute in ("<<<M1642>>>" ++ check (runes_of_ascii "options {
-    As = true
-    MetaDataX = true
-}
-
-packet A {
-    repeat calculatedFrom `say ""hi""`,
-}
-
-MetaData crc {
-    u crc,
-    uint32 body,
-    i16 stringy `u8 x,`,
+)	, 
 }")).
-Eval vm_compute in ("<<<M1543>>>" ++ check (runes_of_ascii "options 
-{ LittleEndian 
-=
-	true
-	;	}
-	packet	B
+Eval vm_compute in ("<<<M1265>>>" ++ check (runes_of_ascii "// top
+packet // c0
+B // c1
+{ // c2
+u8 // c3
+a , // c5a
+  // c5b
+} // c6
+root // c7
+packet P // c9a
+  // c9b
+{ // c10a
+  // c10b
+u8 // c11
+K , // c13a
+  // c13b
+match K // c15a
+  // c15b
+as // c16a
+  // c16b
+Body { // c18
+1 :
+    // c20
+B , }
+    // c23
+, // c24a
+  // c24b
+u16 // c25a
+  // c25b
+L // c26
+@lengthOf( Body
+    // c28
+)
+    // c29
+,
+    // c30
+} ")).
+Eval vm_compute in ("<<<M1387>>>" ++ check (runes_of_ascii "options
 
-{ u8
-a  ,
+{ 
+LittleEndian
+	=
+true 
+;	}
 
-string
-	s ,}
+packet
 
-    root
-packet P {
-u16
+    Logon { u8
+	x
+,
+    }
+	packet
+Logout
 
-    L 
-@lengthOf(
-
-    B
-),
-    B
-
-    , 
-u8	t,} ")).
-Eval vm_compute in ("<<<M1423>>>" ++ check (runes_of_ascii "
-
-  options
-{
-
-LittleEndian  = true
-    ; }
-
-packet	B 
-{
-u8
-
-a	,
-string
-s
-
-    , }  root packet
-	P
 { u16
-L @lengthOf(  B
-    )	,B	,
 
-u8
+    reason
+	, }  root
+packet
 
-    t 
+Frame
+{u64
+Kind , u64
+	Kind2
+
+,match
+Kind  as 
+Body 
+{
+1:	Logon,
+
+    [  2 ,3
+
 ,
+    4 ] 
+:	Logout , 100
+: Logon
+    , 
+},
+match
+Kind2 as
 
+    Trailer{
+0
+:
+	Logout
+, } , } ")).
+Eval vm_compute in ("<<<M215>>>" ++ check (runes_of_ascii "root	packet
+    i8i8 { @tag( // c
+4294967296 )
+    // packet A { u8 x, }
+    Header  calculatedFrom `
+`
+, @tag(4294967296 )
+@rightPad ( ' '
+    )
+@lengthOf( float )
+    options1 zchar `" ++ [233]%N ++ runes_of_ascii "`
+//x
+/// triple
+,}	root packet
+    // " ++ [128512]%N ++ runes_of_ascii " emoji
+    x {repeat
+zchar[  10 ]	x`u8 x,`,
+    }")).
+Eval vm_compute in ("<<<M361>>>" ++ check (runes_of_ascii "MetaData BodyLength { uint16 leftPad `" ++ [233]%N ++ runes_of_ascii "` // a // b
+, uint8x asx,
+    len lengthOf `// not a comment` ,
+string uint8x `doc`
+, }options {i8i8 = 0
+lengthOf =
+    0123456789 ; } packet uint8x { @lengthOf(
+pack ) float64
+u8x@lengthOf(asx //x
+)
+, }
+")).
+Eval vm_compute in ("<<<M358>>>" ++ check (runes_of_ascii "
+packet matchKey	{ // @lengthOf(
+@lengthOf(
+a1 ) string_
+T`" ++ [28040; 24687; 31867; 22411]%N ++ runes_of_ascii "`, //
+} packet body {f32 _x  , packetx @lengthOf(
+options1 ) // packet A { u8 x, }
+`` , @leftPad ( ' ') i16 crc ,@calculatedFrom(
+""" ++ [128512]%N ++ runes_of_ascii """
+)	Pad
+, } //")).
+Eval vm_compute in ("<<<M1311>>>" ++ check (runes_of_ascii "options {
+    FixedStringPadChar = '0';
+}
+packet Q {
+    zchar[4] z,
+    @rightPad('\x00') char[3] n,
+    char[5] d,
+}
+root packet R {
+    Q,
+    zchar[8] top,
+    repeat zchar[2] zs,
+}
+")).
+Eval vm_compute in ("<<<M1583>>>" ++ check (runes_of_ascii "  packet
+
+    A 
+{
+
+match
+    k as
+n {[ 
+""a""  , ""bb""
+	,
+    ""c c"" , ""d""
+    ,
+    ""e""
+
+, 
+""f"" , ""g"" ,
+
+    ""h""
+
+, 
+""i""
+
+,
+""j""  ,	""k""
+    ]
+    :	B  2 
+:C}	, } ")).
+Eval vm_compute in ("<<<M1449>>>" ++ check (runes_of_ascii "packet A {
+    match k as n {
+        [
+            1, 22, ""c c"", 4, 5,
+            ""f"", 7, 8, ""i"", 10,
+            11
+        ] : B,
+        2 : C,
+    },
 }")).
-Eval vm_compute in ("<<<M544>>>" ++ check (runes_of_ascii "packet uint8x
+Eval vm_compute in ("<<<M1700>>>" ++ check (runes_of_ascii "  // top
+packet	// c0
+	  body// c1
+  { 	 // c2
+	  i32 	 // c3
+  f32a// c4
+	  `{ , }`	// c5
+,// c6
+    }  // c7
+  options// c8
+{	// c9
+  	} // c10
+")).
+Eval vm_compute in ("<<<M541>>>" ++ check (runes_of_ascii "packet uint8x
 { match pack
     as msg_type	{
     0123456789 :	float
@@ -1151,263 +1150,233 @@ Eval vm_compute in ("<<<M544>>>" ++ check (runes_of_ascii "packet uint8x
 } packet //	t
 a1
     { } options {packetx
-    = " ++ [65279]%N ++ runes_of_ascii " '\x00'	; u128= ""a	b""  ; }
+    = '\x0" ++ [233]%N ++ runes_of_ascii "0'	; u128= ""a	b""  ; }
 ")).
-Eval vm_compute in ("<<<M447>>>" ++ check (runes_of_ascii "packet uint8x
+Eval vm_compute in ("<<<M497>>>" ++ check (runes_of_ascii "packet uint8x
 { match pack
     as msg_type	{
     0123456789 :	float
-,
 }
+,
 } packet //	t
 a1
     { } options {packetx
-    = '\x00'	; u128= ""a	b""  ; }
+    '\x00' =	; u128= ""a	b""  ; }
 ")).
-Eval vm_compute in ("<<<M470>>>" ++ check (runes_of_ascii "packet uint8x
-{ match pack
-    as msg_type	{
-    0123456789 :	float
-}
-,
-} packet //	t
-a1
-     } options {packetx
-    = '\x00'	; u128= ""a	b""  ; }
-")).
-Eval vm_compute in ("<<<M668>>>" ++ check (runes_of_ascii "// @len'1'gthOf(
+Eval vm_compute in ("<<<M272>>>" ++ check (runes_of_ascii "packet _x	{ } packet BodyLength { int64
+Packet
+@lengthOf( float ),
+options1 /// triple
+{rootA x	, u8
+Packet @calculatedFrom( """ ++ [28040; 24687]%N ++ runes_of_ascii """) `it's`  ,
+} , }")).
+Eval vm_compute in ("<<<M670>>>" ++ check (runes_of_ascii "// @lengthOf(
 packet i8i8 { u128 o , }
 options { MetaDataX = true;
     BodyLength =""packet"" x_y_z= 007
 crc //x
 = ""abc"" ;
+    msg_type = =
+i16 }")).
+Eval vm_compute in ("<<<M675>>>" ++ check (runes_of_ascii "// @lengthOf(
+packet i8i8 { u128 o , }
+options { MetaDataX true =;
+    BodyLength =""packet"" x_y_z= 007
+crc //x
+= ""abc"" ;
     msg_type =
 i16 }")).
-Eval vm_compute in ("<<<M1851>>>" ++ check (runes_of_ascii "  packet B {
-u8
-	a , }
+Eval vm_compute in ("<<<M98>>>" ++ check (runes_of_ascii "
+packet stringy {
+}
+MetaData u8x	{ zchar[ 65535
+    // a // b
+    ] Pad ,stringy string_
+`u8 x,` ,	u8 lengthOf`
+` , char[ 255
+] pack , } 	 ")).
+Eval vm_compute in ("<<<M1717>>>" ++ check (runes_of_ascii "packet
 
-    root  packet P
-{
-    u8
-K
-
-,
-u64 L
-
-    @lengthOf(
-Body) 
-,  match K as
-
-    Body 
-{  1 
-:B
-,
-    }	,
-    } ")).
-Eval vm_compute in ("<<<M1523>>>" ++ check (runes_of_ascii "packet A {
-    match k as n {
-        [
-            1, 22, ""c c"", 4, 5,
-            ""f"", 7, 8, ""i"", 10
-        ] : B,
-        2 : C,
-    },
-}")).
-Eval vm_compute in ("<<<M1632>>>" ++ check (runes_of_ascii "MetaData 
-leftPad {chars 
-	// c
-MetaDataX  ,
-
-    }packet	repeatCount {char[ 255 ]
-
-uint8x
-    `" ++ [233]%N ++ runes_of_ascii "`  ,}MetaData
-pack { As  Foo
-
-,}
-")).
-Eval vm_compute in ("<<<M1400>>>" ++ check (runes_of_ascii "
-
-  packet
-
-    A{ match
-
+    A  { match
     k
-    as n
+as
+    n 
 {
-[  ""a""  ,
 
-""bb"" , 
-""c c"" ,
-""d"",
-	""e""  ,""f"" ,	""g""
-    ] :	B
+    [
+
+    ""a"", ""bb""  ,
+007
+,
+
+    ""d""
+,""e"", 66 , ""g""
+
+,
+	""h""]
+	: 
+B
+2 : C} ,
+	} ")).
+Eval vm_compute in ("<<<M1684>>>" ++ check (runes_of_ascii "
+
+  packet 
+A
+
+    { match	k 
+as
+    n {  [
+""a""
+
+    , 
+22	,
+
+""c c"" , 4 ,""e""
+    ,
+66
+,
+""g"" ,
+
+8 
+]
+:	B
 2
-:
 
-    C
-	}  ,  } ")).
-Eval vm_compute in ("<<<M1258>>>" ++ check (runes_of_ascii "packet B {
-    u8 a,
-}
-root packet P {
-    u8 K,
-    u8 L @lengthOf(Body),
-    match K as Body {
-        1 : B,
-    },
-}
+: 
+C} , }
+
 ")).
-Eval vm_compute in ("<<<M1162>>>" ++ check (runes_of_ascii "MetaData leftPad { chars MetaDataX , } packet repeatCount {
+Eval vm_compute in ("<<<M1142>>>" ++ check (runes_of_ascii "
 // c
-char[ 255 ] uint8x `" ++ [233]%N ++ runes_of_ascii "` , } MetaData pack { As Foo , }")).
-Eval vm_compute in ("<<<M102>>>" ++ check (runes_of_ascii "packet
-    // " ++ [128512]%N ++ runes_of_ascii " emoji
-    body {match Logon  as _x
-    {
-4294967296
-// a // b
-//x
-:
-_x , """ ++ [28040; 24687]%N ++ runes_of_ascii """
-    : u128
-    ,} , }
-")).
-Eval vm_compute in ("<<<M925>>>" ++ check (runes_of_ascii "packet A {
-    u16 len @lengthOf(body) `a
-b`,
-    u32 crc @calculatedFrom(""CRC32"") `a
-b`,
-    string body,
+MetaData leftPad { chars MetaDataX , } packet repeatCount { char[ 255 ] uint8x `" ++ [233]%N ++ runes_of_ascii "` , } MetaData pack { As Foo , }")).
+Eval vm_compute in ("<<<M1168>>>" ++ check (runes_of_ascii "MetaData leftPad { chars MetaDataX , } packet repeatCount { char[ 255 ]
+// c
+uint8x `" ++ [233]%N ++ runes_of_ascii "` , } MetaData pack { As Foo , }")).
+Eval vm_compute in ("<<<M1731>>>" ++ check (runes_of_ascii "
+packet A	{  match k
+	as  n  {[	1
+
+    ,
+22 ,
+""c c"" 
+,4	, 5,
+
+    ""f""
+
+, 
+7
+, 8
+,
+
+""i""
+]
+:  B  , 2  :C 
+} 
+, }")).
+Eval vm_compute in ("<<<M910>>>" ++ check (runes_of_ascii "packet A {
+  match k as n {
+    [""a"", 22, ""c c"", 4, ""e"", 66, ""g"", 8, ""i"", 10, ""k"", 12] : B,
+    2 : C
+  },
 }")).
-Eval vm_compute in ("<<<M1473>>>" ++ check (runes_of_ascii "
-packet
-FooBar{ 
-u8
-a ,}
-	packet
-
-foo_bar
-    { 
-u16
-
-b
-
-,}
-root
-
-packet  R { FooBar
-
-, foo_bar  ,  }
-")).
-Eval vm_compute in ("<<<M641>>>" ++ check (runes_of_ascii "
+Eval vm_compute in ("<<<M912>>>" ++ check (runes_of_ascii "packet A {
+  match k as n {
+    [1, 22, ""c c"", 4, 5, ""f"", 7, 8, ""i"", 10, 11, ""l""] : B,
+    2 : C
+  },
+}")).
+Eval vm_compute in ("<<<M885>>>" ++ check (runes_of_ascii "packet A {
+  match k as n {
+    [""a"", 22, ""c c"", 4, ""e"", 66, ""g"", 8, ""i"", 10] : B
+    2 : C
+  },
+}")).
+Eval vm_compute in ("<<<M600>>>" ++ check (runes_of_ascii "
 packet
     asx {match u128 as lengthOf
+{
+//	t
+// `tick` ""quote"" 'q'
+255 packet x ,
+    } ,	}")).
+Eval vm_compute in ("<<<M585>>>" ++ check (runes_of_ascii "
+packet
+    asx {match u128 as @lengthOf(
 {
 //	t
 // `tick` ""quote"" 'q'
 255 : x ,
-    } @lengthOf ,	}")).
-Eval vm_compute in ("<<<M1267>>>" ++ check (runes_of_ascii "packet B {
-    u8 a,
-    string s,
-}
-root packet P {
-    u16 L @lengthOf(B),
-    B,
-    u8 t,
-}
-")).
-Eval vm_compute in ("<<<M841>>>" ++ check (runes_of_ascii "packet A {
-  match k as n {
-    [""a"", ""bb"", ""c c"", ""d"", ""e"", ""f"", ""g""] : B,
-    2 : C
-  },
-}")).
-Eval vm_compute in ("<<<M644>>>" ++ check (runes_of_ascii "
-packet
-    asx {match u128 as lengthOf
-{
-//	t
-// `tick` ""quote"" 'q'
-255 : x" ++ [178]%N ++ runes_of_ascii " ,
     } ,	}")).
-Eval vm_compute in ("<<<M607>>>" ++ check (runes_of_ascii "
-packet
-    asx {match u128 as lengthOf
+Eval vm_compute in ("<<<M555>>>" ++ check (runes_of_ascii "
+asx
+    packet {match u128 as lengthOf
 {
 //	t
 // `tick` ""quote"" 'q'
-255 : x 
+255 : x ,
     } ,	}")).
-Eval vm_compute in ("<<<M969>>>" ++ check (runes_of_ascii "packet A {
-    u32 crc @calculatedFrom(""x\
-y""),
-    @calculatedFrom(""x\
-y"") u8 y,
-}")).
-Eval vm_compute in ("<<<M816>>>" ++ check (runes_of_ascii "packet A {
-  match k as n {
-    [""a"", ""bb"", ""c c"", ""d"", ""e""] : B
-    2 : C
-  },
-}")).
-Eval vm_compute in ("<<<M611>>>" ++ check (runes_of_ascii "
+Eval vm_compute in ("<<<M577>>>" ++ check (runes_of_ascii "
 packet
-    asx {match u128 as lengthOf
+    asx {match u128  lengthOf
 {
 //	t
 // `tick` ""quote"" 'q'
-255 : x")).
-Eval vm_compute in ("<<<M806>>>" ++ check (runes_of_ascii "packet A {
+255 : x ,
+    } ,	}")).
+Eval vm_compute in ("<<<M836>>>" ++ check (runes_of_ascii "packet A {
   match k as n {
-    [""a"", 22, ""c c"", 4] : B,
+    [""a"", ""bb"", 007, ""d"", ""e"", 66] : B,
     2 : C
   },
 }")).
-Eval vm_compute in ("<<<M1587>>>" ++ check (runes_of_ascii "
-packet A
-
-{ u8
-    x
-, }// a
-		// b
-		packet
-B { }  // c
-  // d")).
-Eval vm_compute in ("<<<M838>>>" ++ check (runes_of_ascii "packet A { Inner { match k as n { [1,22,007,4,5,66] : B, }, }, }")).
-Eval vm_compute in ("<<<M751>>>" ++ check (runes_of_ascii "options @calculatedFrom( repeat } [ @tag( uint32 char[] ] :")).
-Eval vm_compute in ("<<<M1678>>>" ++ check (runes_of_ascii "root
-
+Eval vm_compute in ("<<<M1527>>>" ++ check (runes_of_ascii "MetaData leftPad {
+    /// triple
+    char[] body,
+    As options1,
+    o i64_,
+}")).
+Eval vm_compute in ("<<<M826>>>" ++ check (runes_of_ascii "packet A {
+  match k as n {
+    [1, 22, 007, 4, 5, 66] : B,
+    2 : C
+  },
+}")).
+Eval vm_compute in ("<<<M960>>>" ++ check (runes_of_ascii "packet A {
+    B b `tab
+	x`,
+    B `tab
+	x`,
+    repeat B bs `tab
+	x`,
+}")).
+Eval vm_compute in ("<<<M795>>>" ++ check (runes_of_ascii "packet A {
+  match k as n {
+    [1, 22, ""c c""] : B,
+    2 : C
+  },
+}")).
+Eval vm_compute in ("<<<M782>>>" ++ check (runes_of_ascii "packet A {
+  match k as n {
+    [1, ""bb""] : B,
+    2 : C
+  },
+}")).
+Eval vm_compute in ("<<<M1503>>>" ++ check (runes_of_ascii "root 
 packet P
-    {repeat
-char
-	cs
-    ,
+	{u8  s_u8 ,repeat
 u8
-x 
-,  }
-
-")).
-Eval vm_compute in ("<<<M1209>>>" ++ check (runes_of_ascii "packet body { i32 f32a `{ , }` // c
-, } options { }")).
-Eval vm_compute in ("<<<M1763>>>" ++ check (runes_of_ascii "
-root
-	packet
-A
-{ u8 x `a
-    b
-  c` ,
-    }
-")).
-Eval vm_compute in ("<<<M1738>>>" ++ check (runes_of_ascii "MetaData o {
-}
-
-MetaData T {
-}
-
-options {
+	r_u8,  u16 b_len  ,	}")).
+Eval vm_compute in ("<<<M1070>>>" ++ check (runes_of_ascii "packet A { match k as n { 1 : B // a // b 2 : C }, }")).
+Eval vm_compute in ("<<<M1213>>>" ++ check (runes_of_ascii "packet body { i32 f32a `{ , }` , } // c
+options { }")).
+Eval vm_compute in ("<<<M927>>>" ++ check (runes_of_ascii "MetaData M {
+    u8 x `a
+b`,
+    T t `a
+b`,
+}")).
+Eval vm_compute in ("<<<M212>>>" ++ check (runes_of_ascii "packet
+    MetaDataX {i16 u128`" ++ [233]%N ++ runes_of_ascii "` , //x
 }")).
 Eval vm_compute in ("<<<M1096>>>" ++ check (runes_of_ascii "packet A { u8 x,// a
 
@@ -1415,37 +1384,33 @@ Eval vm_compute in ("<<<M1096>>>" ++ check (runes_of_ascii "packet A { u8 x,// a
 // b
 
  u8 y, }")).
-Eval vm_compute in ("<<<M1773>>>" ++ check (runes_of_ascii "  packet Z9_	{	}
-
-packet
-Pad
-{  }")).
-Eval vm_compute in ("<<<M978>>>" ++ check (runes_of_ascii "packet A {
- u8 x `d `, // c 
-}")).
-Eval vm_compute in ("<<<M1714>>>" ++ check (runes_of_ascii "
-
-  // c" ++ [6158]%N ++ runes_of_ascii "
-  packet A
-
-{ 
-}
-
+Eval vm_compute in ("<<<M85>>>" ++ check (runes_of_ascii "options// c
+{MetaDataX =int16 }
 ")).
-Eval vm_compute in ("<<<M268>>>" ++ check (runes_of_ascii " // packet A { u8 x, }")).
-Eval vm_compute in ("<<<M1810>>>" ++ check (runes_of_ascii "root packet chars {
+Eval vm_compute in ("<<<M993>>>" ++ check (runes_of_ascii "packet A {
+ u8 x `d" ++ [133]%N ++ runes_of_ascii "`, // c" ++ [133]%N ++ runes_of_ascii "
 }")).
-Eval vm_compute in ("<<<M95>>>" ++ check (runes_of_ascii "
-packet  Logon {}
+Eval vm_compute in ("<<<M1637>>>" ++ check (runes_of_ascii "
+packet x
+
+    {
+} // c
 ")).
-Eval vm_compute in ("<<<M1046>>>" ++ check (runes_of_ascii "packet A {
+Eval vm_compute in ("<<<M286>>>" ++ check (runes_of_ascii " // `tick` ""quote"" 'q'")).
+Eval vm_compute in ("<<<M20>>>" ++ check (runes_of_ascii "packet MetaDataX { }")).
+Eval vm_compute in ("<<<M976>>>" ++ check (runes_of_ascii "packet A {
 }
-// c" ++ [8203]%N)).
-Eval vm_compute in ("<<<M1054>>>" ++ check (runes_of_ascii "packet A {
-}// c" ++ [6158]%N)).
+// c ")).
+Eval vm_compute in ("<<<M1057>>>" ++ check (runes_of_ascii "// c" ++ [6158]%N ++ runes_of_ascii "
+packet A {
+}")).
+Eval vm_compute in ("<<<M1227>>>" ++ check (runes_of_ascii "packet
+// c
+x { }")).
 Eval vm_compute in ("<<<M297>>>" ++ check (runes_of_ascii "// " ++ [128512]%N ++ runes_of_ascii " emoji
 
 
 ")).
-Eval vm_compute in ("<<<M990>>>" ++ check (runes_of_ascii "// c" ++ [133]%N)).
-Eval vm_compute in ("<<<M725>>>" ++ check (runes_of_ascii " ")).
+Eval vm_compute in ("<<<M985>>>" ++ check (runes_of_ascii "// c" ++ [160]%N)).
+Eval vm_compute in ("<<<M19>>>" ++ check (runes_of_ascii "
+")).
